@@ -25,6 +25,8 @@ def run(ctx):
     d_more(ctx)
     b_error_delivery(ctx)
     c_store_roundtrip(ctx)
+    c_key_of_text(ctx)
+    b_model_order(ctx)
 
 
 def _nodes_between(cfg, a, b):
@@ -43,6 +45,12 @@ def a_enqueue(ctx):
     unit = qualname(fn)
     waits = [n for n in cfg.nodes if n.ast is not None and n.has_await() and "_current_batch_finished_event" in src(n.ast) and ".wait()" in src(n.ast)]
     if len(waits) != 1:
+        shared = [n for n in ast.walk(fn) if isinstance(n, ast.Await) and isinstance(n.value, ast.Attribute) and src(n.value).startswith("self._")]
+        if shared:
+            ctx.check("C19.a.enqueue", BASIC, unit, "await %s" % src(shared[0].value), False,
+                      "a request awaits the SHARED runner task `%s` instead of the batch event: cancelling one waiting request (a caller timeout) cancels the runner, so every other request of the batch fails "
+                      "with CancelledError, and if the event is never reset all later batched searches fail too" % src(shared[0].value), line=shared[0].lineno)
+            return
         raise AnalysisError("await of the batch-finished event not found", anchor=BASIC + "::_batch_get_embeddings::finished_event.wait")
     A = waits[0]
     alloc = [n for n in cfg.nodes if n.kind == "stmt" and isinstance(n.ast, ast.Assign) and src(n.ast.value) == "self._req_idx" and isinstance(n.ast.targets[0], ast.Name)]
@@ -340,3 +348,46 @@ def c_store_roundtrip(ctx):
                   ("set serialises and get parses (JSON)" if dumps else "the object itself is kept") if ok else
                   "%s keeps values in an external medium but %s: a list of floats cannot be stored as is (redis-py >= 3 raises DataError; older clients return the bytes of its string form as `the embedding`)"
                   % (c.name, "set does not serialise the value" if not dumps else "get does not parse what set wrote"), line=c.lineno)
+
+
+NORMALISERS = {"lower", "upper", "casefold", "strip", "lstrip", "rstrip", "split", "join", "replace", "translate", "title", "capitalize", "normalize", "sub"}
+
+
+def c_key_of_text(ctx):
+    """`each text is embedded to exactly the vector the model gives for that text`: the cache key must be a function of the EXACT text.  A key generator that first
+    normalises the text (case, whitespace) maps distinct texts to one entry, and one of them is handed the other's vector."""
+    t = ctx.tree.ast(CACHE)
+    gens = [c for c in t.body if isinstance(c, ast.ClassDef) and any(src(b) == "KeyGenerator" for b in c.bases)]
+    ctx.floor("C19.c.key-of-text", CACHE, "key generators", len(gens), 2, [c.name for c in gens])
+    for c in gens:
+        gk = [f for f in c.body if isinstance(f, ast.FunctionDef) and f.name == "generate_key"]
+        if not gk:
+            continue
+        f = gk[0]
+        tp = f.args.args[1].arg if len(f.args.args) > 1 else "text"
+        bad = []
+        for call in [x for x in ast.walk(f) if isinstance(x, ast.Call)]:
+            name = call.func.attr if isinstance(call.func, ast.Attribute) else (call.func.id if isinstance(call.func, ast.Name) else "")
+            touches = any(isinstance(y, ast.Name) and y.id == tp for y in ast.walk(call))
+            if touches and (name in NORMALISERS or (isinstance(call.func, ast.Attribute) and src(call.func.value) in ("self", "cls", c.name, "KeyGenerator") and name != "generate_key")):
+                bad.append(call)
+        ctx.check("C19.c.key-of-text", CACHE, "%s.generate_key" % c.name, "key derived from the exact text", not bad,
+                  "the key is computed from the text as given (only encoded for hashing)" if not bad else
+                  "`%s` transforms the text before it is hashed: texts that differ only in what the transformation removes (\"Tell me about Apple\" / \"tell me about apple\") share one cache entry and one "
+                  "of them gets the other's vector" % first_line(bad[0], 60), line=(bad[0].lineno if bad else f.lineno))
+
+
+def b_model_order(ctx):
+    """`results keep the order of the inputs`: _get_embeddings hands the list to the model and returns the model's list.  If the input is split, the parts must be put
+    together in INPUT order (sequential calls or asyncio.gather) - never in completion order."""
+    t = ctx.tree.ast(BASIC)
+    ge = find_function(t, "_get_embeddings", "BasicEmbeddingsIndex")
+    if ge is None:
+        raise AnalysisError("_get_embeddings not found", anchor=BASIC + "::_get_embeddings")
+    unordered = [c for c in ast.walk(ge) if isinstance(c, ast.Call) and src(c.func) in ("asyncio.as_completed", "as_completed", "asyncio.wait")]
+    calls = [c for c in ast.walk(ge) if isinstance(c, ast.Call) and isinstance(c.func, ast.Attribute) and c.func.attr in ("encode_async", "encode")]
+    ctx.floor("C19.b.model-order", BASIC, "model calls in _get_embeddings", len(calls), 1)
+    ctx.check("C19.b.model-order", BASIC, "BasicEmbeddingsIndex._get_embeddings", "results assembled in input order", not unordered,
+              "the embeddings are the model's answer for the input list (or parts put together in input order)" if not unordered else
+              "`%s` collects partial results in COMPLETION order: for inputs that are split (a knowledge base with more texts than the chunk size) the returned list is a permutation of the inputs - index items, "
+              "batched requests and cache entries get other texts' vectors" % first_line(unordered[0], 60), line=(unordered[0].lineno if unordered else ge.lineno))
